@@ -306,6 +306,53 @@ def oracle_clone(case):
     return {'nontrivial': k1 == 'ok', 'classes': ['form:' + form, 'model:' + spec['cls']]}
 
 
+def clone_multi_strategy():
+    return st.fixed_dictionaries({
+        'kind': st.sampled_from(['gaussian', 'vine']), 'form': st.sampled_from(['unfitted', 'fitted', 'class-kwargs']),
+        'dist': M.dist_atom(M.FAST_CLASSES, allow_default=False, allow_wrapper=True), 'vine_type': st.sampled_from(['center', 'direct', 'regular']),
+        'table': S.table_spec(2, 4, 30, 120, constant=False), 'seed': S.SEEDS,
+    })
+
+
+def oracle_clone_multi(case):
+    """get_instance on multivariate prototypes: new unfitted object, configured like the prototype."""
+    from copulas.errors import NotFittedError
+    from copulas.multivariate import GaussianMultivariate, VineCopula
+    from copulas.utils import get_instance
+
+    df, _ = S.build_table(case['table'])
+    if case['kind'] == 'gaussian':
+        make = lambda: GaussianMultivariate(distribution=M.build_dist(case['dist']), random_state=case['seed'] % 1000)
+        cls = GaussianMultivariate
+    else:
+        make = lambda: VineCopula(case['vine_type'], random_state=case['seed'] % 1000)
+        cls = VineCopula
+    proto = make()
+    if case['form'] == 'fitted':
+        k, e = call(proto.fit, df.copy(), allow=(Exception,))
+    if case['form'] == 'class-kwargs':
+        kwargs = {'distribution': M.build_dist(case['dist'])} if case['kind'] == 'gaussian' else {'vine_type': case['vine_type']}
+        clone = value(get_instance, cls, what='get_instance(class, **kwargs)', **kwargs)
+        direct = cls(**kwargs)
+    else:
+        clone = value(get_instance, proto, what='get_instance(instance)')
+        direct = make()
+    require(clone is not proto and type(clone) is cls, 'get_instance returned %r for a %s prototype' % (type(clone).__name__, cls.__name__), tag='clone-class')
+    k, e = call(clone.sample, 2, allow=(Exception,))
+    require(k == 'exc' and isinstance(e, NotFittedError), 'get_instance(%s %s) is not unfitted' % (case['form'], cls.__name__), tag='clone-fitted')
+    np.random.seed(3)
+    k1, e1 = call(clone.fit, df.copy(), allow=(Exception,))
+    np.random.seed(3)
+    k2, e2 = call(direct.fit, df.copy(), allow=(Exception,))
+    require(k1 == k2, 'clone.fit %s but a directly configured model %s' % (k1, k2), tag='clone-config')
+    if k1 == 'ok':
+        probes = {'rows': df.to_numpy()[:3].tolist()} if case['kind'] == 'gaussian' else {'u': [0.3] * df.shape[1], 'n_sample': 2}
+        d = O.first_difference(O.observe(clone, probes, seed=11), O.observe(direct, probes, seed=11))
+        require(d is None, 'get_instance(%s %s): after fitting, the clone differs from a directly configured model at %s' % (case['form'], cls.__name__, d),
+                tag='clone-config', detail={'diff': d})
+    return {'nontrivial': k1 == 'ok', 'classes': ['kind:' + case['kind'], 'form:' + case['form']]}
+
+
 # ---- (e) uninitialised memory ---------------------------------------------------------------------------
 
 def vine_signature(vine, u):
@@ -338,5 +385,6 @@ SUBS = [
     Sub('unfitted_queries', unfitted_strategy(), oracle_unfitted, quick=240, thorough=2400),
     Sub('invalid_training_data', invalid_strategy(), oracle_invalid, quick=240, thorough=4800),
     Sub('get_instance', clone_strategy(), oracle_clone, quick=320, thorough=9600),
+    Sub('get_instance_multivariate', clone_multi_strategy(), oracle_clone_multi, quick=160, thorough=3200),
     Sub('poisoned_empty', c16.vine_case(3, 7, 30, 80), oracle_poison, quick=240, thorough=7200),
 ]
